@@ -5,6 +5,7 @@ import (
 	"strings"
 
 	"go.starlark.net/starlark"
+	"go.starlark.net/syntax"
 
 	"verif/internal/sl"
 )
@@ -14,6 +15,7 @@ import (
 //	index [i]            recv[i]
 //	slice [a,b,c]        recv[a:b:c]           (None = operand omitted)
 //	setitem [i,v]        recv[i] = v           (reports (None; the list afterwards))
+//	prog [star,py,label] a whole program (Starlark text, Python text); its observation is the global "res"
 //	add [y] mul [y]      recv + y, recv * y
 //	interp [x]           recv % x
 //	m:<name> args        string/bytes method; m:format takes [tuple of positionals, dict of keywords];
@@ -43,6 +45,9 @@ def _setitem(x, i, v):
 _neg = lambda x: -x
 _last = lambda x: x[-1]
 _zero = lambda x: 0
+_first = lambda x: x[0]
+_mod3 = lambda x: x % 3
+_div10 = lambda x: x // 10
 `
 
 func newExecEnv() (*execEnv, error) {
@@ -53,7 +58,7 @@ func newExecEnv() (*execEnv, error) {
 	}
 	env.helpers = g
 	env.funcs = map[string]starlark.Value{
-		"len": starlark.Universe["len"], "neg": g["_neg"], "last": g["_last"], "zero": g["_zero"],
+		"len": starlark.Universe["len"], "neg": g["_neg"], "last": g["_last"], "zero": g["_zero"], "first": g["_first"], "mod3": g["_mod3"], "div10": g["_div10"],
 	}
 	return env, nil
 }
@@ -98,7 +103,24 @@ func (env *execEnv) starArgs(args []val) starlark.Tuple {
 	return t
 }
 
+// runProg executes a whole program and observes its global "res".
+func (env *execEnv) runProg(opts *syntax.FileOptions, src string) outcome {
+	g, err := starlark.ExecFileOptions(opts, env.thread, "c13prog.star", src, nil)
+	if err != nil {
+		return errOutcome(err)
+	}
+	res := g["res"]
+	if res == nil {
+		return outcome{canon: "E", err: "program left no res"}
+	}
+	return valOutcome(res)
+}
+
 func (env *execEnv) direct1(it *item) outcome {
+	if it.op == "prog" {
+		// (there is no Go-API form of a program: the second run uses the default dialect instead of all options)
+		return env.runProg(&syntax.FileOptions{}, it.args[0].s)
+	}
 	recv := it.recv.star(env)
 	switch {
 	case it.op == "index":
@@ -327,6 +349,13 @@ func (it *item) source() (src string, expr bool) {
 
 // viaSource evaluates the rendered source text with every dialect option on.
 func (env *execEnv) viaSource(it *item) (out outcome, src string) {
+	if it.op == "prog" {
+		src = it.args[0].s
+		if p := sl.Safe(func() { out = env.runProg(sl.AllOptions(), src) }); p != nil {
+			return outcome{canon: "PANIC", panic: p.String() + " @ " + p.TopFrame()}, src
+		}
+		return out, src
+	}
 	src, expr := it.source()
 	p := sl.Safe(func() {
 		if expr {
@@ -365,6 +394,9 @@ func (it *item) String() string {
 // opGroup names the implementation unit an operation belongs to (for stable violation keys):
 // methods that share one implementation in library.go share a group.
 func (it *item) opGroup() string {
+	if it.op == "prog" {
+		return "aliasing " + it.args[2].s
+	}
 	typ := map[byte]string{'S': "str", 'B': "bytes", 'L': "list", 'U': "tuple", 'R': "range"}[it.recv.k]
 	if typ == "" {
 		typ = "value"
@@ -404,6 +436,9 @@ func (it *item) opGroup() string {
 // argClass summarises the shape of the arguments relative to the receiver length n (for violation keys):
 // it never contains the concrete operands.
 func (it *item) argClass() string {
+	if it.op == "prog" {
+		return "(result shares storage with an operand)"
+	}
 	if it.op == "slice" {
 		// one key per (receiver type, direction): start/stop shapes would split one root cause over hundreds of keys
 		st := it.args[2]
